@@ -77,7 +77,7 @@ def run(tier, seed, replay=None):
     r.extra["mc_texts_replayed"] = ntext
     P = ["parse", "--c02"]
     plans = [
-        # every pair of vocabulary pieces of every family, as a document and under all 34 fragment contexts
+        # every pair of vocabulary pieces of every family, as a document and under all 46 fragment contexts
         ("pairs", P + ["--mode", "enum", "--k", 2, "--pieces", 36 if q else 60], N),
         # the standard's tables one entry at a time: quirks identifiers, SVG tag/attribute adjustments, foreign
         # attributes, the special category (through the adoption agency, li/dd/dt, any-other-end-tag), break-out tags
